@@ -1,6 +1,6 @@
 """C08 — GOAWAY identifiers and the accept/reject line (server) + received GOAWAY handling (client)."""
 import vlib
-from props import common
+from props import common, corpus
 
 
 def sig(s, trace, why):
@@ -24,6 +24,9 @@ def run(tier, chk):
     common.run_sim(chk, wd, scns, "Shutdown_Trace", trace_cfg="Shutdown_Trace_C08", shards=14, sig_of=sig)
     cl = common.gen_scenarios(chk, wd, "GoawayRecv_Gen", label="cgen", workers=4)
     common.run_sim(chk, wd, cl, "C04_Trace", label="csim", shards=6, sig_of=lambda s, t, w: "c08:client-goaway-sequence")
+    if tier != "quick":
+        # every scenario family of the simulator-based checks: GOAWAY identifiers written on the control stream never grow (H3Conn_Trace)
+        corpus.cross(chk, "C08", "H3Conn_Trace", env_extra={"INV": "GOAWAY"}, sig_of=lambda s, t, w: "c08:corpus:goaway-id-grows-on-the-wire")
     chk.exhaustive = True
     chk.distinct_nontrivial = len(scns) + len(cl)
     chk.rule = (f"server: every history of length <= {n} over (arrival of stream 0/4/8 in any order, shutdown(0..2) at most twice); "
